@@ -164,9 +164,13 @@ def check(case, rec):
         segs[-1] = dict(segs[-1], marker=True)
         fs['segments'] = segs
     data, _i, lay = encode_file(fs)
-    ex = ex_logical if ex_logical is not None else expected_content(fs)
+    if fs.get('_kind') == 'daqmx' or case['fs'].get('_kind') == 'daqmx':
+        from props.C03 import DaqEx
+        ex = DaqEx(fs)
+    else:
+        ex = ex_logical if ex_logical is not None else expected_content(fs)
     cuts = [case['cut']] if case.get('cut') is not None else range(4, len(data) + 1)
-    classes = S.spec_classes(fs)
+    classes = ['daqmx'] if case['fs'].get('_kind') == 'daqmx' else S.spec_classes(fs)
     first = True
     for cut in cuts:
         if not first:
@@ -189,6 +193,13 @@ def cases(draw, **kw):
 
 
 @st.composite
+def daqmx_cases(draw):
+    from vf.daqmx import daqmx_file
+    fs = draw(daqmx_file(max_segments=3, max_len=3, max_chunks=3, max_channels=3, max_width=8))
+    return {'fs': dict(fs, _kind='daqmx'), 'marker': draw(st.booleans()), 'cut': None}
+
+
+@st.composite
 def plan_cases(draw):
     from props.C02 import history
     h = draw(history(max_segments=4, max_channels=3))
@@ -203,6 +214,8 @@ def jobs(tier):
                 Job('data_heavy_files_x_all_cuts', 'hyp',
                     lambda: cases(props=False, nodata_entries=False, max_n=5, max_chunks=4), n=200,
                     note='every cut offset 4..len(file) of each generated file'),
+                Job('daqmx_files_x_all_cuts', 'hyp', daqmx_cases, n=120,
+                    note='every cut offset of DAQmx files (scaled data = highest-numbered scaler)'),
                 Job('inherited_metadata_files_x_all_cuts', 'hyp', plan_cases, n=200,
                     note='every cut offset of files encoded with carried-over object lists / metadata-less segments')]
     return [Job('files_x_all_cuts', 'hyp', lambda: cases(), n=6000,
@@ -210,6 +223,8 @@ def jobs(tier):
             Job('data_heavy_files_x_all_cuts', 'hyp',
                 lambda: cases(props=False, nodata_entries=False, max_n=5, max_chunks=4), n=6000,
                 note='every cut offset 4..len(file) of each generated file'),
+            Job('daqmx_files_x_all_cuts', 'hyp', daqmx_cases, n=4000,
+                note='every cut offset of DAQmx files (scaled data = highest-numbered scaler)'),
             Job('inherited_metadata_files_x_all_cuts', 'hyp', plan_cases, n=6000,
                 note='every cut offset of files encoded with carried-over object lists / metadata-less segments'),
             Job('larger_files_x_all_cuts', 'hyp', lambda: cases(max_segments=5, max_n=6, max_chunks=4, max_channels=4),
